@@ -69,6 +69,34 @@ def generate(gen, tier):
             cfg = gen.cfg(pred=0)
             cases.append({'lines': [op('sort', *p), op('flatten', cfg, d)],
                           'o': {'cfg': render(cfg), 'tree': render(d), 'perm_seed': 1}})
+    # failing sorts on longer key lists: a comparable run, then a key that belongs earlier, then
+    # incomparable keys (list.sort() has already moved elements when it gives up)
+    n2 = 120 if tier == 'quick' else 4000
+    for _ in range(n2):
+        m = gen.rng.randrange(3, 8)
+        style = gen.rng.choice(['int', 'str', 'tup', 'mixed', 'ord'])
+        ks = gen.keyset(m, style)
+        extra = []
+        for _ in range(gen.rng.choice([1, 2, 2, 3])):
+            extra.append(gen.key_obj(gen.rng.choice(['vk.KU', 'vk.KV']), False))
+        if gen.rng.random() < 0.3:
+            extra.append([A('t'), 1, 5]) if style != 'tup' else None
+        extra = [e for e in extra if e is not None]
+        ks = ks + extra
+        if gen.rng.random() < 0.6:
+            # keep a sorted-ish prefix followed by a small key, then the incomparable ones
+            pos = gen.rng.randrange(0, len(ks) + 1)
+            tail = ks[len(ks) - len(extra):]
+            head = ks[:len(ks) - len(extra)]
+            gen.rng.shuffle(head)
+            ks = head[:pos] + tail[:1] + head[pos:] + tail[1:]
+        else:
+            gen.rng.shuffle(ks)
+        kind = gen.rng.choice(['D', 'DD'])
+        d = [A('D'), *[[k, gen.leaf(0)] for k in ks]] if kind == 'D' else [A('DD'), 0, *[[k, gen.leaf(0)] for k in ks]]
+        cfg = gen.cfg(pred=0, ordered=[])
+        cases.append({'lines': [op('sort', *ks), op('flatten', cfg, d), op('iter', cfg, d), op('flatten_with_path', cfg, d)],
+                      'o': {'cfg': render(cfg), 'tree': render(d), 'perm_seed': 1}})
     return cases
 
 
